@@ -77,7 +77,9 @@ def draw_gmm(n, loc, scale, pvals, random_state=None) -> Tuple[np.ndarray, np.nd
             X += [generator.normal(loc[k], np.sqrt(scale[k]), size=(n,))]
     else:
         for k in range(K):
-            if np.any(np.linalg.eigvals(scale[k]) < 0):
+            eigenvalues = np.linalg.eigvals(scale[k])
+            # Singular covariances have eigenvalues equal to 0 up to rounding errors: tolerate those
+            if np.any(eigenvalues < -1e-8 * np.max(np.abs(eigenvalues))):
                 raise ValueError(f"The {k}-th covariance is not positive semi-definite")
             if np.all(scale[k] == 0):
                 raise ValueError(f"The {k}-th covariance matrix contains only zeroes")
